@@ -242,6 +242,12 @@ def run(chk):
     _replay_lattice(chk, recs, 1 if quick else 3)
     _random_affines(chk, 3000 if quick else 60000)
     c16_grad.run(chk)
+    # end to end: the encoder's fallback branches as the compiler reaches them (gradient counter-transforms that leave
+    # int16 / Fixed on reused copies: thin bars, copies far smaller than their donor, elliptical gradients), judged by
+    # the layer oracle on the compiled font
+    from . import c01
+
+    c01.coincidence_scenarios(chk, 18 if quick else 400, pid="C16", only="overflow")
     chk.assumptions += [
         "fontTools COLR compile/decompile is the reference for what a field can hold",
         "dual-number lattice: eps stands for 1e-10 (below picosvg.almost_equal's 1e-9)",
